@@ -20,7 +20,7 @@ NA = {
  "C18": "pure functions of two texts",
 }
 
-PENDING = {k: "simulation check designed (DESIGN.md section 3) but not built yet in this commit; not claimed until it runs" for k in ["C08","C19"]}
+PENDING = {k: "simulation check designed (DESIGN.md section 3) but not built yet in this commit; not claimed until it runs" for k in ["C08"]}
 
 def check(pid, category, text, note, technique, design_ref):
     return {
@@ -49,6 +49,9 @@ CHECKS = {
  "C20": check("C20", "exploration",
     "Seeded search over generated corpora and options (max_size None/0/1/<|V|/=|V|/>|V|, max_sequences incl. 0 and cuts across file boundaries, words / char 1-grams / char 3-grams), each created with 2-3 different num_threads values in separate simulated processes under seeded thread schedules and per-process hash keys (simulated OS entropy). Every result is compared with an independent sequential count / top-k / argmin reference, with the results of the other thread counts (must be identical), and through save->load; get_closest is checked for minimal distance and maximal frequency among ties. The thread-count and schedule independence and the dependence of tie-breaks on per-process hash order are exactly what a simulator can vary and a unit test cannot.",
     TRUST + " The reference obtains tokens and distances through the library's pure text functions (clean, normalize, split_words, edit::distance).", "deterministic simulation: seeded schedules x thread counts x simulated OS entropy over real Dictionary::create/save/load/get_closest, sequential reference model as oracle", "DESIGN.md 3 (C20)"),
+ "C19": check("C19", "exploration",
+    "Seeded search over generated corpora on 2-4 letter alphabets (overlapping pairs such as 'aaa'/'abab', repeated words, corpora exhausted before the requested number of merges), vocab sizes / special-token counts / normalisation / max_lines_per_file, trained by the real train_bpe with 0..4 counting threads in separate simulated processes under seeded schedules and per-process hash keys (which decide ties among maximal pairs). The emitted table is read back and re-derived step by step by an independent recount of adjacent-pair frequencies from scratch (any maximal pair accepted, branching on ambiguous concatenations), ids must be exactly 0..n-1 with n <= requested, and a BPETokenizer built from the file must be lossless and vocabulary-consistent on the corpus. Termination (no deadlock on the count channel) is required for every thread count.",
+    TRUST + " The reference obtains the words of a line through the library's pure functions clean/normalize/count_words_whitespace.", "deterministic simulation: seeded schedules x thread counts x simulated OS entropy over real train_bpe, independent greedy-BPE recount as oracle", "DESIGN.md 3 (C19)"),
 }
 
 def main():
